@@ -216,3 +216,37 @@ def explain_diff(x, y, budget=20000):
         else:
             break
     return 'first form has %s where second has %s (at %s)' % (T.show(a, 4)[:300], T.show(b, 4)[:300], '/'.join(path[-8:]))
+
+def bare_length_uses(outs, slots, lt):
+    """uses of sqrt(sum of squares of `slots`) that are NOT the large-length branch of Vec::length()'s guard
+    ite(dot < c, lengthTiny, sqrt(dot)).  A vector that is normalised by such a bare square root is mapped to zero /
+    loses its direction when the squared length underflows, which length() (C08) is there to prevent."""
+    from engine import poly as P
+    ctx = P.Ctx()
+    want = None
+    for a in slots:
+        sq = P.ppow(P.patom(ctx.key(a)), 2)
+        want = sq if want is None else P.padd(want, sq)
+    parents = {}; seen = set(); st = list(outs)
+    while st:
+        x = st.pop()
+        if x.id in seen: continue
+        seen.add(x.id)
+        for a in x.args:
+            parents.setdefault(a.id, []).append(x); st.append(a)
+    bad = []; n = 0
+    for nid, ps in parents.items():
+        nd = T._nodes[nid]
+        if not (nd.op == 'call' and 'sqrt' in str(nd.attr) and len(nd.args) == 1): continue
+        try:
+            r = ctx.rat(nd.args[0])
+        except P.NotPoly:
+            continue
+        if not ctx.requal(r, (want, P.pconst(1))): continue
+        n += 1
+        for p_ in ps:
+            ok = p_.op == 'ite' and (p_.args[1] is nd or p_.args[2] is nd) and p_.args[0].op == 'fcmp' and p_.args[0].attr in ('olt', 'ole') \
+                 and p_.args[0].args[0] is nd.args[0] and p_.args[0].args[1].op == 'const' and T.const_value(p_.args[0].args[1]) > 0 and p_.args[2] is nd
+            if not ok: bad.append(p_)
+    return n, bad
+
